@@ -142,5 +142,6 @@ def run(repo, col):
     c15.rule_o0(repo, col)
     n = c15.rule_o1(repo, col, ["struct_cmp"])
     col.floor("O1.threeway_assignments", n, 3)
-    c15.rule_o5(repo, col)
+    if any(r.name == "sort" and r.arity == 2 for r in bi.registry(repo)):
+        c15.rule_o5(repo, col)
     c15.rule_o6(repo, col)
